@@ -106,7 +106,7 @@ class FaultyRaw(io.FileIO):
         path = self.name
         super().close()
         if self._writing and fs.clock is not None and not fs.dead():
-            t = fs.clock.time_ns()
+            t = fs.clock.time_ns() + getattr(fs.clock, "fs_skew_us", 0) * 1000  # the file system's clock
             try:
                 REAL_UTIME(path, ns=(t, t))
             except OSError:
